@@ -288,6 +288,21 @@ def eval_cases(pid, mod, cases, chunk=500, holds_only=False, timeout=1200, tag="
         running.append((k, p, f))
     while running:
         reap(True)
+    # a case-file process killed from outside (OOM killer under load, time-out) is retried once, alone
+    if errors:
+        retry = [k for k, r in enumerate(results) if r is None or r[0] is None or r[1] is None]
+        errors_first = list(errors)
+        del errors[:]
+        for k in retry:
+            f = os.path.join(cdir, "cases_%s_%d.v" % (pid, k))
+            rc, out, err, _ = run(["timeout", str(timeout), "coqc", "-Q", os.path.join(COQ, "theories"), "", f], cwd=cdir, timeout=timeout + 30)
+            if rc != 0:
+                errors.append("case file %s: coqc exit %s (after one retry): %s" % (f, rc, (err or out)[-1500:]))
+                results[k] = (None, None)
+            else:
+                results[k] = (parse_idx(out, "bad_accept"), parse_idx(out, "bad_holds"))
+                if results[k][0] is None or results[k][1] is None:
+                    errors.append("case file %s: cannot read index lists: %s" % (f, out[-500:]))
     bad_a, bad_h = [], []
     for k, r in enumerate(results):
         if r is None or r[0] is None or r[1] is None:
